@@ -738,6 +738,33 @@ func main() {
 					fmt.Fprintf(&b, "/-- %s: %s -/\ndef %s %s : %s :=\n  %s\n\n", sp.File, fn, leanName, strings.Join(params, " "), rt, t.expr(ret.Results[0]))
 				} else {
 					var lines []string
+					// Go lets a function assign to its parameters: shadow those by mutable locals
+					assigned := map[string]bool{}
+					ast.Inspect(fd.Body, func(n ast.Node) bool {
+						if as, ok := n.(*ast.AssignStmt); ok && as.Tok == token.ASSIGN {
+							for _, l := range as.Lhs {
+								if idn, ok := l.(*ast.Ident); ok {
+									assigned[idn.Name] = true
+								}
+							}
+						}
+						return true
+					})
+					var pnames []string
+					for _, fl := range []*ast.FieldList{fd.Recv, fd.Type.Params} {
+						if fl != nil {
+							for _, p := range fl.List {
+								for _, nm := range p.Names {
+									pnames = append(pnames, nm.Name)
+								}
+							}
+						}
+					}
+					for _, nm := range pnames {
+						if assigned[nm] {
+							lines = append(lines, "  let mut "+id(nm)+" := "+id(nm))
+						}
+					}
 					t.block(fd.Body.List, "  ", &lines)
 					fmt.Fprintf(&b, "/-- %s: %s -/\ndef %s %s : %s := Id.run do\n%s\n\n", sp.File, fn, leanName, strings.Join(params, " "), rt, strings.Join(lines, "\n"))
 				}
